@@ -995,6 +995,14 @@ func (m Migrator) ReorderModels(values []interface{}, autoAdd bool) (results []i
 		orderedModelNames = append(orderedModelNames, name)
 	}
 
+	// parse every model first: parsing an owner registers its has-one / has-many relations in the schema of
+	// the child, and a child listed before its owner would be ordered without that dependency
+	for _, value := range values {
+		if _, ok := value.(string); !ok {
+			_ = (&gorm.Statement{DB: m.DB}).ParseWithSpecialTableName(value, m.DB.Statement.Table)
+		}
+	}
+
 	for _, value := range values {
 		if v, ok := value.(string); ok {
 			results = append(results, v)
